@@ -68,6 +68,12 @@ func (k Keeper) MinSignedPerWindow(ctx sdk.Ctx) (res int64) {
 	return minSignedPerWindow.MulInt64(signedBlocksWindow).RoundInt64() // todo may have to be int64 .RoundInt64()
 }
 
+// the stored parameter itself: the fraction of the window, not the number of blocks derived from it
+func (k Keeper) minSignedPerWindowFraction(ctx sdk.Ctx) (res sdk.Dec) {
+	k.Paramstore.Get(ctx, types.KeyMinSignedPerWindow, &res)
+	return
+}
+
 // Downtime jail duration
 func (k Keeper) DowntimeJailDuration(ctx sdk.Ctx) (res time.Duration) {
 	k.Paramstore.Get(ctx, types.KeyDowntimeJailDuration, &res)
@@ -96,7 +102,7 @@ func (k Keeper) GetParams(ctx sdk.Ctx) types.Params {
 		ProposerRewardPercentage: k.ProposerRewardPercentage(ctx),
 		MaxEvidenceAge:           k.MaxEvidenceAge(ctx),
 		SignedBlocksWindow:       k.SignedBlocksWindow(ctx),
-		MinSignedPerWindow:       sdk.NewDec(k.MinSignedPerWindow(ctx)),
+		MinSignedPerWindow:       k.minSignedPerWindowFraction(ctx),
 		DowntimeJailDuration:     k.DowntimeJailDuration(ctx),
 		SlashFractionDoubleSign:  k.SlashFractionDoubleSign(ctx),
 		SlashFractionDowntime:    k.SlashFractionDowntime(ctx),
